@@ -135,3 +135,29 @@ func HarnessC17Idempotent() {
 	vassert((once == nil) == (twice == nil), "C17/idempotent-nilness")
 	vreach("end")
 }
+
+// HarnessC17UsersAndServiceAccounts: the user part of a rule as normalizeRules stores it (users normalised, service
+// accounts whatever normalisation makes of them) matches exactly the requests the submitted one matches - including
+// incomplete service-account references, which match nobody but still count as "a user restriction is present".
+// verif:bounds users 0..2; service accounts 0..2 with namespace/name of <= 1 byte (so empty ones arise); user <= 6 bytes or a service-account name
+func HarnessC17UsersAndServiceAccounts() {
+	in := proxyv1alpha1.DispatchPolicyRule{Users: c17List("rule", nondetRange("n", 0, 2))}
+	nsa := nondetRange("nsa", 0, 2)
+	for i := 0; i < nsa; i++ {
+		in.ServiceAccounts = append(in.ServiceAccounts, proxyv1alpha1.ServiceAccountRef{Namespace: nondetStringN("sans", 1, i), Name: nondetStringN("saname", 1, i)})
+	}
+	var user string
+	if nondetBool("userIsSA") {
+		user = "system:serviceaccount:" + nondetStringN("uns", 1) + ":" + nondetStringN("uname", 1)
+	} else {
+		user = nondetString("user")
+	}
+	out := normalizeRules(in)
+	before := proxyv1alpha1.UserOrServiceAccountMatches(in.Users, in.ServiceAccounts, user)
+	after := proxyv1alpha1.UserOrServiceAccountMatches(out.Users, out.ServiceAccounts, user)
+	vobserve("before", before)
+	vassert(before == after, "C17/users-and-serviceaccounts-equivalent")
+	again := normalizeRules(out)
+	vassert(len(again.ServiceAccounts) == len(out.ServiceAccounts) && len(again.Users) == len(out.Users), "C17/idempotent-length")
+	vreach("end")
+}
